@@ -34,9 +34,9 @@ Theorem C20_from_is_inverse_of_to : forall r g b w, det (to_xyz r g b w) <> 0 ->
 Proof. exact from_to_identity. Qed.
 Print Assumptions C20_from_is_inverse_of_to.
 
-(* exactly singular matrices: a repeated or a zero column has determinant 0 (partial: that the
-   float64 evaluation of this determinant is then exactly +0 - so that Inverse panics - is decided
-   by the Flocq model on every generated singular matrix, not by a theorem) *)
+(* exactly singular matrices: a repeated or a zero column has determinant 0 over the reals (partial here;
+   the float64 evaluation of this determinant is shown to be a zero - so that Inverse panics - by the
+   C20_singular_float64_* theorems at the end of this file, under named no-overflow premises) *)
 Theorem C20_singular_determinant_partial : forall a b,
   (det (M a a b) = 0 /\ det (M a b a) = 0 /\ det (M b a a) = 0) /\
   (det (M (V 0 0 0) a b) = 0 /\ det (M a (V 0 0 0) b) = 0 /\ det (M a b (V 0 0 0)) = 0).
